@@ -89,6 +89,8 @@ def random_cfg(r: random.Random, rel: bool = False) -> dict:
         cfg["metrics"] = True
     if r.random() < 0.4:
         cfg["logger"] = True
+    if (cfg.get("metrics") or cfg.get("logger")) and r.random() < 0.3:
+        cfg["sink_mode"] = "raise"     # a failing sink is only a consumer of the finished decision
     return cfg
 
 
